@@ -29,6 +29,14 @@ the NaN clauses are evaluated everywhere.  Costs are small integers, so the floa
 compared with a relative tolerance of 1e-5.
 
 Kernels (cross_support, cbca_step_1..4) are also run alone against naive loops, on integer data, compared exactly.
+
+Mask conventions: the value that means "valid" in a mask is the `valid_pixels` attribute of the dataset that carries the
+mask (`no_data_mask` is its no-data value, every other value is "invalid"); the two images of a pair need not use the same
+values.  A case therefore carries `lconv` / `rconv` = (valid_pixels, no_data_mask) of the left / right dataset and its
+masks are written with these values; a pixel of an image is masked iff its msk differs from the valid_pixels of THAT
+image.  About half of the cases that carry a mask are written with two different conventions (e.g. left 0 / 1, right
+255 / 0).  A failure of such a case that disappears when the same pair (same masked pixels) is written with one common
+convention gets the suffix `-mask-conventions-differ` in its witness class.
 """
 import itertools
 import time
@@ -39,6 +47,10 @@ import xarray as xr
 from bounded.common import Recorder, same, jsonable  # noqa: F401  (interface)
 
 VALID, NODATA, INVALID = 0, 1, 2
+CONV_DEFAULT = (VALID, NODATA)
+# (valid_pixels, no_data_mask, value used for the other, "invalid", pixels); the valid_pixels values are pairwise different
+CONVENTIONS = ((0, 1, 2), (255, 0, 1), (1, 0, 2), (2, 1, 0), (7, 3, 5))
+DIFFCONV = "-mask-conventions-differ"
 RTOL = 1e-5
 DIRS = ((0, -1), (0, 1), (-1, 0), (1, 0))  # left, right, top, bottom  (axis-0 = row, axis-1 = col)
 
@@ -99,7 +111,7 @@ def oracle_supports(case):
     offset, subpix, dist, tau = case["offset"], case["subpix"], case["distance"], case["intensity"]
     lm = np.array(left, dtype=np.float32)
     if case["lmsk"] is not None:
-        lm[np.asarray(case["lmsk"]) != VALID] = np.nan
+        lm[np.asarray(case["lmsk"]) != _conv(case, "lconv")[0]] = np.nan  # masked iff != valid_pixels of the LEFT dataset
     img_left = _crop(_median3(lm), offset)
     arms_left = naive_arms(img_left, dist, tau)
 
@@ -114,7 +126,7 @@ def oracle_supports(case):
             if real.shape == im.shape and np.allclose(real, im, rtol=0, atol=1e-3):
                 im = real  # same image up to rounding: share the rounding of the real interpolation
         if case["rmsk"] is not None:
-            bad = np.asarray(case["rmsk"]) != VALID
+            bad = np.asarray(case["rmsk"]) != _conv(case, "rconv")[0]  # masked iff != valid_pixels of the RIGHT dataset
             if k > 0:
                 bad = bad[:, :-1] | bad[:, 1:]
             im[bad] = np.nan
@@ -169,13 +181,23 @@ def oracle_plane(plane, d, arms_left, arms_right, subpix, swap_fraction=False):
 # --------------------------------------------------------------------------------------------------------------------
 # real code
 # --------------------------------------------------------------------------------------------------------------------
-def _dataset(im, msk):
+def _conv(case, name):
+    """(valid_pixels, no_data_mask) of the left ("lconv") / right ("rconv") dataset of the case"""
+    conv = case.get(name)
+    return CONV_DEFAULT if conv is None else (int(conv[0]), int(conv[1]))
+
+
+def _conv_differ(case):
+    return _conv(case, "lconv") != _conv(case, "rconv")
+
+
+def _dataset(im, msk, conv=CONV_DEFAULT):
     im = np.array(im, dtype=np.float32)
     var = {"im": (["row", "col"], im)}
     if msk is not None:
         var["msk"] = (["row", "col"], np.array(msk, dtype=np.int16))
     ds = xr.Dataset(var, coords={"row": np.arange(im.shape[0]), "col": np.arange(im.shape[1])})
-    ds.attrs = {"valid_pixels": VALID, "no_data_mask": NODATA, "crs": None, "transform": None}
+    ds.attrs = {"valid_pixels": int(conv[0]), "no_data_mask": int(conv[1]), "crs": None, "transform": None}
     return ds
 
 
@@ -215,8 +237,8 @@ def diagnose(case, cost, disps, oracle):
     agg = aggregation.AbstractAggregation(**{"aggregation_method": "cbca", "cbca_intensity": float(case["intensity"]),
                                              "cbca_distance": int(case["distance"])})
     try:
-        c_left, c_right = agg.computes_cross_supports(_dataset(case["left"], case["lmsk"]),
-                                                      _dataset(case["right"], case["rmsk"]), cv)
+        c_left, c_right = agg.computes_cross_supports(_dataset(case["left"], case["lmsk"], _conv(case, "lconv")),
+                                                      _dataset(case["right"], case["rmsk"], _conv(case, "rconv")), cv)
     except Exception as exc:  # pylint: disable=broad-except
         return "supports-crash-" + type(exc).__name__, None
     classes = _arm_diff_classes(c_left, arms_left, img_left, case["distance"])
@@ -234,8 +256,8 @@ def real_aggregate(case, cost, disps):
     """runs the real cbca on a copy; cost : (row, col, disp) float32 of image size"""
     from pandora import aggregation
 
-    left = _dataset(case["left"], case["lmsk"])
-    right = _dataset(case["right"], case["rmsk"])
+    left = _dataset(case["left"], case["lmsk"], _conv(case, "lconv"))
+    right = _dataset(case["right"], case["rmsk"], _conv(case, "rconv"))
     cost = np.array(cost, dtype=np.float32)
     cv = xr.Dataset(
         {"cost_volume": (["row", "col", "disp"], cost.copy())},
@@ -261,9 +283,47 @@ def _arm_reason(case):
     return "-".join(parts)
 
 
+def encode_mask(msk, conv3):
+    """mask over {VALID, NODATA, INVALID} written with the convention (valid_pixels, no_data_mask, invalid value)"""
+    if msk is None:
+        return None
+    msk = np.asarray(msk)
+    out = np.empty(msk.shape, dtype=np.int16)
+    out[msk == VALID] = conv3[0]
+    out[msk == NODATA] = conv3[1]
+    out[(msk != VALID) & (msk != NODATA)] = conv3[2]
+    return out
+
+
+def _common_convention(case):
+    """the same pair (same masked pixels on each side) written with the one convention VALID / NODATA"""
+    com = dict(case, lconv=CONV_DEFAULT, rconv=CONV_DEFAULT)
+    for name, cname in (("lmsk", "lconv"), ("rmsk", "rconv")):
+        if case[name] is not None:
+            valid, nodata = _conv(case, cname)
+            msk = np.asarray(case[name])
+            com[name] = np.where(msk == valid, VALID, np.where(msk == nodata, NODATA, INVALID)).astype(np.int16)
+    return com
+
+
 def check_case(case, planes_alone=True, alone_max=None):
     """returns (list of (clause, witness_class, message), info dict); `alone_max`: at most that many planes (evenly
-    spaced, first and last included) are also aggregated alone (None = every plane)"""
+    spaced, first and last included) are also aggregated alone (None = every plane).
+    When the two datasets declare different mask conventions and something fails, the same pair written with one common
+    convention is evaluated too: the failures it does not show get the suffix DIFFCONV in their witness class (the others
+    keep the class they have in the common-convention domain)."""
+    out, info = _check_case(case, planes_alone, alone_max)
+    if out and _conv_differ(case):
+        common, _ = _check_case(_common_convention(case), planes_alone, alone_max)
+        seen = {(f[0], f[1]) for f in common}
+        lconv, rconv = _conv(case, "lconv"), _conv(case, "rconv")
+        note = " [left valid_pixels=%d no_data_mask=%d, right valid_pixels=%d no_data_mask=%d; does not fail with a " \
+               "common convention]" % (lconv + rconv)
+        out = [f if (f[0], f[1]) in seen else (f[0], f[1] + DIFFCONV, f[2] + note) for f in out]
+    return out, info
+
+
+def _check_case(case, planes_alone=True, alone_max=None):
     out = []
     cost = np.array(case["cost"], dtype=np.float32)
     disps = _disp_range(case["dmin"], case["dmax"], case["subpix"])
@@ -614,7 +674,8 @@ def _case_key(case):
     def byt(a):
         return None if a is None else (np.asarray(a).tobytes(), np.asarray(a).shape)
     return ("agg", byt(case["left"]), byt(case["right"]), byt(case["lmsk"]), byt(case["rmsk"]), byt(case["cost"]),
-            case["dmin"], case["dmax"], case["subpix"], case["offset"], case["distance"], case["intensity"])
+            case["dmin"], case["dmax"], case["subpix"], case["offset"], case["distance"], case["intensity"]) + \
+        ((_conv(case, "lconv"), _conv(case, "rconv")) if (case.get("lconv") or case.get("rconv")) else ())
 
 
 def _witness(case):
@@ -646,13 +707,14 @@ def _shrink(case, clause, wclass, budget=60):
                 cost = np.asarray(best["cost"])
                 cand["cost"] = cost[:, :, step - nd:] if lo > best["dmin"] else cost[:, :, :nd]
                 cands.append(cand)
-        for name in ("lmsk", "rmsk"):
+        for name, cname in (("lmsk", "lconv"), ("rmsk", "rconv")):
             if best[name] is not None:
                 cands.append(dict(best, **{name: None}))
                 msk = np.asarray(best[name])
-                for r, c in zip(*np.nonzero(msk)):
+                valid = _conv(best, cname)[0]
+                for r, c in zip(*np.nonzero(msk != valid)):
                     m2 = msk.copy()
-                    m2[r, c] = VALID
+                    m2[r, c] = valid
                     cands.append(dict(best, **{name: m2}))
         for cand in cands:
             tries += 1
@@ -704,6 +766,13 @@ def run(tier: str, seed: int) -> dict:
     n_sub4 = n_negfrac = n_discr = 0  # subpix-4 volumes / with a plane d < 0, frac(d) in {1/4, 3/4} / that tell the shifts apart
     found = set()
     sampled = sampled4 = 0
+    # mask conventions: drawn from a generator of their own, so that the images, masked pixels and costs of the cases are
+    # those of the single-convention enumeration; about half of the cases that carry a mask are written with two
+    # different conventions
+    rng_conv = np.random.default_rng([int(seed), 11])
+    n_conv = {1: 0, 2: 0, 4: 0}      # volumes whose datasets declare different conventions, by subpix
+    n_conv_r = {1: 0, 2: 0, 4: 0}    # ... that are non-trivial and carry a right mask
+    n_conv_rm = {1: 0, 2: 0, 4: 0}   # ... with at least one masked right pixel
     work = [(ps, rnd, cfg) for ps in range(passes) for rnd in range(n_rounds) for cfg in configs]
     for ps, rnd, (offset, subpix, distance, intensity) in work:
         if time.time() > deadline:
@@ -722,24 +791,37 @@ def run(tier: str, seed: int) -> dict:
                              maxwidth=4 if wide else 2)
         else:
             case = make_case(rng, n0, n1, offset, subpix, distance, intensity)
+        u_conv = rng_conv.random()
+        i_l, i_r = [int(v) for v in rng_conv.choice(len(CONVENTIONS), size=2, replace=False)]
+        differ = (case["lmsk"] is not None or case["rmsk"] is not None) and u_conv < 0.5
+        if differ:
+            case["lmsk"], case["rmsk"] = encode_mask(case["lmsk"], CONVENTIONS[i_l]), encode_mask(case["rmsk"], CONVENTIONS[i_r])
+            case["lconv"], case["rconv"] = CONVENTIONS[i_l][:2], CONVENTIONS[i_r][:2]
         # (subpix 4: 3 (quick) / 5 (thorough) of the up to 9 / 17 planes are also aggregated alone: wall budget)
         fails, info = check_case(case, planes_alone=True, alone_max=None if subpix != 4 else (3 if quick else 5))
         if subpix == 4:
             n_sub4 += 1
             n_negfrac += info.get("negfrac", 0) > 0
             n_discr += bool(info.get("discr"))
+        if differ:
+            n_conv[subpix] += 1
+            if info["nontrivial"] and case["rmsk"] is not None:
+                n_conv_r[subpix] += 1
+                n_conv_rm[subpix] += bool((np.asarray(case["rmsk"]) != case["rconv"][0]).any())
         sample = None
         if subpix == 4 and info.get("discr") and sampled4 < 1:
             sample = {"kind": "agg", "shape": [n0, n1], "offset": offset, "subpix": subpix, "distance": distance,
                       "intensity": intensity, "disp": [case["dmin"], case["dmax"]],
                       "planes": [float(d) for d in _disp_range(case["dmin"], case["dmax"], subpix)],
                       "right": case["right"], "rmsk": case["rmsk"],
+                      "valid_pixels_no_data_mask": [list(_conv(case, "lconv")), list(_conv(case, "rconv"))],
                       "negative_quarter_planes": info["negfrac"], "largest_region": info["maxsize"]}
             sampled4 += 1
         elif info["nontrivial"] and sampled < 2 and rnd in (0, 3, 8):  # (5 samples kept: 2 kernels, 2 + 1 volumes)
             sample = {"kind": "agg", "shape": [n0, n1], "offset": offset, "subpix": subpix, "distance": distance,
                       "intensity": intensity, "disp": [case["dmin"], case["dmax"]],
                       "masks": [case["lmsk"] is not None, case["rmsk"] is not None],
+                      "valid_pixels_no_data_mask": [list(_conv(case, "lconv")), list(_conv(case, "rconv"))],
                       "largest_region": info["maxsize"]}
             sampled += 1
         rec.case(key=_case_key(case), nontrivial=info["nontrivial"], sample=sample)
@@ -755,6 +837,8 @@ def run(tier: str, seed: int) -> dict:
             rec.violation(clause=clause, witness_class=wclass, message=msg2,
                           witness=dict(_witness(small), clause=clause, witness_class=wclass))
     n_agg = rec.evaluations - n_kernel_eval
+    _conv_text = ", ".join("subpix %d: %d volumes, %d non-trivial with a right mask (%d with a masked right pixel)"
+                           % (sp, n_conv[sp], n_conv_r[sp], n_conv_rm[sp]) for sp in (1, 2, 4))
     bound = ("full cbca: image pairs from 2x2 up to 5x7 over {0,10,50} (iid / blocky / constant; right = translated left, copy "
              "or independent), masks none/all-valid/one/sparse/dense over {valid,nodata,invalid} on each side, integer costs "
              "0..20 with NaN holes (p in {0,.1,.3}), disparity ranges within [-2,2], subpix {1,2,4}, offset_row_col {0,1}, "
@@ -766,9 +850,12 @@ def run(tier: str, seed: int) -> dict:
              "pixels, masks none/all-valid/one/sparse, first disparity in {-2,-1}, last <= 1), range at most 2 wide"
              "%s: %d subpix-4 volumes, %d with a plane d < 0 whose fraction d - floor(d) is 1/4 or 3/4, %d of them able to "
              "tell the pairing with the frac(d)-shifted right image from the pairing with the (1 - frac(d))-shifted one "
-             "(the expected value of a checked cell differs)"
+             "(the expected value of a checked cell differs). Mask conventions: (valid_pixels, no_data_mask) of each dataset "
+             "in {(0,1),(255,0),(1,0),(2,1),(7,3)} (other pixels: 2,1,2,0,5), each mask read with the attributes of its own "
+             "dataset; half of the volumes that carry a mask (generator of its own, default_rng([seed, 11])) declare two "
+             "different conventions: %s; the others 0/1 on both sides"
              % (n_agg, seed, tier, " (subpix 4: %d evenly spaced planes)" % (3 if quick else 5), n_exhaustive,
-                n_kernel_eval - n_exhaustive, "" if quick else " (4 wide for 30%)", n_sub4, n_negfrac, n_discr))
+                n_kernel_eval - n_exhaustive, "" if quick else " (4 wide for 30%)", n_sub4, n_negfrac, n_discr, _conv_text))
     rule = ("cases drawn with numpy default_rng(seed), %d passes over the shapes (subpix 4: every other pass in the thorough tier), smallest first, one volume for each "
             "of the 48 (offset, subpix, distance, intensity) configurations and each shape, stopped early only if the wall "
             "budget is exhausted; a case is distinct by the "
@@ -778,7 +865,9 @@ def run(tier: str, seed: int) -> dict:
             "Oracle image = real 3x3 median filter of the masked image (sub-pixel plane d: column c + floor(d) of the right image "
             "shifted by d - floor(d); real shift_right_img checked against (1-f)*I[j] + f*I[j+1], atol 1e-3) cropped "
             "to the computed area; value clause only where column c+d exists in the right support; quotient compared with "
-            "rtol 1e-5, everything else exactly; failing witnesses are greedily reduced (planes, masks) before being recorded."
+            "rtol 1e-5, everything else exactly; failing witnesses are greedily reduced (planes, masks) before being recorded; "
+            "a failure of a pair with two mask conventions that the same pair written with one convention does not show "
+            "is recorded under <class>-mask-conventions-differ."
             % (passes, min(sizes_seen) if sizes_seen else 0, max(sizes_seen) if sizes_seen else 0, partial_cases))
     res = rec.result(bound=bound, rule=rule)
     res["seconds_run"] = round(time.time() - t_start, 1)
@@ -794,6 +883,9 @@ def replay(witness: dict) -> bool:
             case[name] = np.array(case[name], dtype=np.float32)
         for name in ("lmsk", "rmsk"):
             case[name] = None if case[name] is None else np.array(case[name], dtype=np.int16)
+        for name in ("lconv", "rconv"):  # (valid_pixels, no_data_mask) of each dataset; older witnesses: 0 / 1 on both sides
+            if witness.get(name) is not None:
+                case[name] = (int(witness[name][0]), int(witness[name][1]))
         fails, _ = check_case(case)
         if "clause" in witness:
             return any(f[0] == witness["clause"] and f[1] == witness.get("witness_class", f[1]) for f in fails)
